@@ -2,6 +2,7 @@ package main
 
 import (
 	"sync"
+	"time"
 
 	kv "github.com/XiXi-2024/xixi-kv"
 	"verifharness/h"
@@ -169,12 +170,17 @@ func halfBatchTrace(en *Env, index string, stats map[string]int) {
 	close(relStart)
 	select {
 	case <-scanned:
-		c.MaxImages = 10
-		c.Snapshot("halfbatch.uncommitted")
-		c.MaxImages = 0
-		stats["halfbatch_images"]++
+		stats["halfbatch_merge_marked_before_commit"]++
 	case <-mergeDone:
+	case <-time.After(400 * time.Millisecond):
+		// the merge waits for the database lock the open batch holds (it flushes the active file before
+		// writing its marker): the image then shows an unmarked merge directory
+		stats["halfbatch_merge_waits_for_batch"]++
 	}
+	c.MaxImages = 10
+	c.Snapshot("halfbatch.uncommitted")
+	c.MaxImages = 0
+	stats["halfbatch_images"]++
 	e.Commit()
 	close(relDone)
 	<-mergeDone
@@ -189,3 +195,4 @@ func halfBatchTrace(en *Env, index string, stats map[string]int) {
 	obs := c.ExploreMerge(false, stats)
 	c.Flush(obs)
 }
+
